@@ -926,6 +926,10 @@ class CxxEvaluator(Evaluator):
         if k == "call" and e.get("f", "").startswith(("std::make_unique<", "std::make_shared<")) and self.hook_for(e["f"]) is None and self.prog is not None and e.get("targs"):
             T = e["targs"][0]
             args = [self.eval(a, env, this) for a in e.get("a", [])]
+            if T.startswith("std::basic_string<"):
+                return StdStr.construct(args)
+            if T.startswith("std::vector<"):
+                return Vec([] if not args else list(args[0].items if isinstance(args[0], Vec) else args[0]), "vector")
             last = T.split("::")[-1].split("<")[0]
             cands = [f for f in self.prog.funcs.values() if f.get("cls") == T and f["n"] == last and len(f["params"]) == len(args)
                      and (f.get("body") is not None or f.get("inits"))]
